@@ -16,6 +16,10 @@ var verifC16SourceQueries = []struct {
 	{"SELECT v FROM \"a\".\"b\".m, \"c\".\"d\".n", []verifC16Src{{"a", "b"}, {"c", "d"}}},
 	{"SELECT v FROM a..m", []verifC16Src{{"a", ""}}},
 	{"SELECT v FROM m", []verifC16Src{{"", ""}}},
+	// two sources in the same database with different retention policies
+	{"SELECT v FROM \"a\".\"b\".m, \"a\".\"d\".n", []verifC16Src{{"a", "b"}, {"a", "d"}}},
+	// the same pair twice
+	{"SELECT v FROM \"a\".\"b\".m, \"a\".\"b\".n", []verifC16Src{{"a", "b"}, {"a", "b"}}},
 }
 
 // VerifC16CheckDBRPs: a batch task with 1..2 query nodes and 1..2 declared dbrps
